@@ -295,6 +295,8 @@ pub fn replay(o: &Opts) -> Value {
                                     ("bom+decl", format!("\u{feff}<?xml version='1.0' encoding='utf-8' ?>\n{doc}")),
                                     ("prefixed", prefixed(&doc)),
                                     ("ns-scopes", ns_scopes(&doc)),
+                                    ("nil-quoted", nil_everywhere(&doc, true)),
+                                    ("nil-unquoted", nil_everywhere(&doc, false)),
                                     ("mixed-skip", mixed_skip(&doc, false)),
                                     ("mixed-skip2", mixed_skip(&doc, true)),
                                 ];
@@ -458,6 +460,17 @@ fn mixed_skip(doc: &str, child_first: bool) -> String {
 /// XMLSchema-instance namespace, and every other child carries `x:nil="true"` - which means nothing as long as the scope of
 /// the skipped element has ended.  Whatever the deserializer makes of it, the str and the reader entry points must agree.
 fn ns_scopes(doc: &str) -> String {
+    decorate(doc, " xmlns:x=\"urn:other\"", "<zz xmlns:x=\"http://www.w3.org/2001/XMLSchema-instance\"><zz><zz x:nil=\"true\"/></zz></zz>", " x:nil=\"true\"")
+}
+
+/// Presentations in which the prefix IS bound to the XMLSchema-instance namespace on the root and every descendant carries the
+/// attribute: properly quoted (every child is nil: "absent"), or with an UNQUOTED value (an attribute error for the XML
+/// attribute grammar - whatever the deserializer makes of that, both entry points must make the same of it).
+fn nil_everywhere(doc: &str, quoted: bool) -> String {
+    decorate(doc, " xmlns:x=\"http://www.w3.org/2001/XMLSchema-instance\"", "", if quoted { " x:nil=\"true\"" } else { " x:nil=true" })
+}
+
+fn decorate(doc: &str, root_attr: &str, first_child: &str, attr: &str) -> String {
     let b = doc.as_bytes();
     // end of the root start tag: the first '>' outside quotes
     let (mut i, mut q) = (0usize, 0u8);
@@ -475,8 +488,9 @@ fn ns_scopes(doc: &str) -> String {
     }
     let mut out = String::with_capacity(doc.len() + 200);
     out.push_str(&doc[..i]);
-    out.push_str(" xmlns:x=\"urn:other\">");
-    out.push_str("<zz xmlns:x=\"http://www.w3.org/2001/XMLSchema-instance\"><zz><zz x:nil=\"true\"/></zz></zz>");
+    out.push_str(root_attr);
+    out.push('>');
+    out.push_str(first_child);
     let rest = &doc[i + 1..];
     let rb = rest.as_bytes();
     let mut k = 0;
@@ -488,7 +502,7 @@ fn ns_scopes(doc: &str) -> String {
                 e += 1;
             }
             out.push_str(&rest[k..e]);
-            out.push_str(" x:nil=\"true\"");
+            out.push_str(attr);
             k = e;
         } else {
             let ch = rest[k..].chars().next().unwrap();
